@@ -22,6 +22,8 @@ import (
 	"sync"
 
 	"golang.org/x/sync/errgroup"
+
+	"github.com/facebookincubator/dns/dnsrocks/verifhook"
 )
 
 func getWorkers(workers int) (int, error) {
@@ -46,6 +48,7 @@ func ParseStream(r io.Reader, codec *Codec, results chan<- []MapRecord, workers 
 			if err != nil {
 				return fmt.Errorf("Conversion failed for line '%s': %w", line, err)
 			}
+			verifhook.Yield("parse.result.send")
 			results <- v
 			return nil
 		},
@@ -106,6 +109,7 @@ func parse(r io.Reader, process func([]byte) error, workers int) error {
 	for i := 0; i < workers; i++ {
 		g.Go(func() error {
 			for line := range c {
+				verifhook.Yield("parse.worker.line")
 				if err := process(line); err != nil {
 					return err
 				}
@@ -127,6 +131,7 @@ func parse(r io.Reader, process func([]byte) error, workers int) error {
 			}
 			newLine := make([]byte, len(line))
 			copy(newLine, line)
+			verifhook.Yield("parse.scan.send")
 			c <- newLine
 		}
 	}()
@@ -135,6 +140,7 @@ func parse(r io.Reader, process func([]byte) error, workers int) error {
 		return err
 	}
 	wg.Wait()
+	verifhook.Yield("parse.joined")
 
 	// Check we have reached EOF properly
 	if err := scanner.Err(); err != nil {
